@@ -47,7 +47,7 @@ theorem hooksRel_remove_attribute : HooksRel (closureFam false) RemoveAttribute.
 
 /-- **`remove_attribute` as a whole** preserves the observable outcome (returned values, raised error,
 external-call trace) of EVERY program, at every call level, for every number system / oracle. -/
-theorem rule_refines_remove_attribute (b : Block) {N : NumOps} (ρ : ExtOracle N) (n : Nat)
+theorem remove_attribute_refines_lift (b : Block) {N : NumOps} (ρ : ExtOracle N) (n : Nat)
     (externs : List String) :
     runProgram ρ n externs (RemoveAttribute.apply b) = runProgram ρ n externs b :=
   runProgram_rel ρ n externs (Visitor.visit_R_of_rel hooksRel_remove_attribute false _ true b ())
